@@ -101,6 +101,9 @@ static unsigned blankmask_of(const SuplaEspCfg *c) {
   unsigned m = 0;
   if (c->Server[0] == 0) m |= 1; if (c->Email[0] == 0) m |= 2; if (c->WIFI_SSID[0] == 0) m |= 4; if (c->WIFI_PWD[0] == 0) m |= 8;
   if (c->LocationID != 0 && c->LocationPwd[0] != 0) m |= 16;
+  /* 32: the stored record is not a valid configuration at all (tag / identity missing): everything is lost */
+  { static const char z[SUPLA_GUID_SIZE + SUPLA_AUTHKEY_SIZE];
+    if (memcmp(c->TAG, "SUPLA\x07", 6) != 0 || !memcmp(c->GUID, z, SUPLA_GUID_SIZE) || !memcmp(c->AuthKey, z, SUPLA_AUTHKEY_SIZE)) m |= 32; }
   return m;
 }
 static unsigned flash_blankmask(void) {
